@@ -133,4 +133,11 @@ theorem C04_schema_value_kind (j : Json.J) (v : Val) (h : Codec.valueIs j v = tr
     (∃ b, j = .str b ∧ ∃ s, v = .str s) ∨ (∃ l, j = .num l ∧ ∀ s, v ≠ .str s) :=
   Codec.valueIs_kind j v h
 
+/-- an entry list of schema.json accepted by the comparison has exactly as many entries as the
+    model's index of that field (no entry dropped or added by a write/reload can pass) -/
+theorem C04_schema_entries_count (name : String) (fi mi : List (Nat × Nat)) (fuel i : Nat)
+    (js : List Json.J) (es : FIdx) (h : Codec.checkEntries name fi mi fuel i js es = .ok ()) :
+    js.length = es.length :=
+  Codec.checkEntries_length name fi mi fuel i js es h
+
 end Sod.Props
